@@ -518,7 +518,13 @@ func TestVerifC18(t *testing.T) {
 		pos := 0
 		for bi, bx := range boxes {
 			rem := uint32(len(base) - pos)
-			for _, sz := range append(append([]uint32{}, sizes...), rem+1, rem-1) {
+			// sizes whose sum with the box position wraps around 2^32 (to the stream start, to the
+			// next box, to this box itself)
+			wrap := []uint32{-uint32(pos), 8 - uint32(pos), uint32(bx.size) - uint32(pos)}
+			if pos == 0 {
+				wrap = nil
+			}
+			for _, sz := range append(append(append([]uint32{}, sizes...), rem+1, rem-1), wrap...) {
 				data := append([]byte{}, base...)
 				binary.BigEndian.PutUint32(data[pos:], sz)
 				if c18NaiveMax(data) > 1<<26 {
@@ -539,6 +545,8 @@ func TestVerifC18(t *testing.T) {
 					cls := "ge8"
 					if sz < 8 {
 						cls = "lt8"
+					} else if sz > 1<<31 {
+						cls = "wraps"
 					}
 					for _, f := range x.Fails {
 						switch {
@@ -578,13 +586,13 @@ func c18NaiveMax(data []byte) uint32 {
 	pos := uint32(0)
 	for steps := 0; steps < 1000 && int(pos)+8 <= len(data); steps++ {
 		size := binary.BigEndian.Uint32(data[pos:])
-		if size > max {
-			max = size
-		}
 		if size == 0 {
 			break
 		}
-		pos += size
+		pos += size // 32-bit arithmetic, as in the parser: what it will ask its buffer to hold
+		if pos > max {
+			max = pos
+		}
 	}
 	return max
 }
